@@ -1507,6 +1507,11 @@ class Vector():
 		if self._dtype is not None and self._dtype.kind in (bool, int) and isinstance(other, int):
 			warnings.warn(f"The behavior of >> and << have been overridden for concatenation. Use .bitshift() to shift bits.")
 
+		if isinstance(other, Mapping):
+			# {name: values, ...}: named columns after this one, as for table >> {name: values}
+			# (iterating the mapping would store its KEYS as one column)
+			from .table import Table
+			return Table([self]) >> other
 		if type(other).__name__ == 'Table':
 			return Vector((self,) + other.cols())
 		if isinstance(other, Vector):
@@ -1544,6 +1549,10 @@ class Vector():
 		"""
 		# (a table on the right contributes its columns, as in Vector >> table - not itself as one column)
 		rest = self.cols() if self.ndims() == 2 else (self,)
+		if isinstance(other, Mapping):
+			# {name: values, ...} >> self: the mapping's named columns first (not its keys as one column)
+			from .table import Table
+			return Table(dict(other)) >> self
 		# Convert other to Vector and combine column-wise
 		if isinstance(other, Iterable) and not isinstance(other, (str, bytes, bytearray, int, float, complex, Enum)):
 			return Vector((Vector(tuple(other)),) + rest,
